@@ -1,3 +1,442 @@
-import Kurbo.Quads
+import Proofs.Lemmas.C17
+import Proofs.Lemmas.C17Fit
+import Proofs.Lemmas.C17Split
+import Proofs.Lemmas.C17Spline
+import Proofs.Lemmas.C17Loop
+import Proofs.Lemmas.C17Sound
+import Proofs.Lemmas.C17Real
+/-! C17 – cubic → quadratics: `to_quads`, `fit_inside`, `split_into_n`, `try_approx_quadratic`, `approx_spline_n`,
+    `approx_spline`, `cubics_to_quadratic_splines`, `QuadSpline::to_quads` (hand-written model `Kurbo/Quads.lean` +
+    the kernel functions it calls).  Helper lemmas: `Proofs/Lemmas/C17*.lean`
+    (`C17` to_quads algebra, `C17Fit` fit_inside, `C17Split` split_into_n, `C17Spline` result shapes,
+    `C17Loop` closed form of the approx_spline_n loop, `C17Sound` accuracy, `C17Real` ℝ instance / piece count).
+
+    PROVED.  Part A needs no arithmetic law (any `Scalar`, also `Float`); Part B is for an arbitrary lawful scalar
+    (ordered field with exact floor/ceil: ℚ, ℝ …); distances are squared Euclidean distances (`dx² + dy² ≤ a²`),
+    so no square root is needed.
+    * `toQuads_length` (length = `toQuadsN`, ≥ 1), `toQuads_getElem`, `toQuads_tiles` (piece i covers `[i/n,(i+1)/n]`),
+      `toQuads_tiles_shared` (t1 of piece i and t0 of piece i+1 are the same term), `toQuads_tiles_ends` (first 0, last 1),
+      `toQuads_endpoints_on_cubic(_terms)` (end points of each quadratic are on the cubic).
+    * `toQuads_error_identity`: `quadᵢ(s) − cubic(t0 + s·(t1−t0)) = −D·(t1−t0)³·s(s−½)(s−1)`, `D = p3 − 3p2 + 3p1 − p0`
+      (note the sign); `cubic_s_bound_sq` (`(s(s−½)(s−1))² ≤ 1/432` on [0,1]) and `cubic_s_bound_sq_tight` (1/432 is
+      attained, the constant 432 is optimal); `toQuads_error_bound(')`: every piece is within `a` of the cubic at
+      corresponding parameters PROVIDED the piece count satisfies `|D|² ≤ n⁶·432·a²`.
+      Part C (ℝ): `toQuadsN_sufficient` – under the laws `powf x y = x^y`, `x as usize = min ⌊x⌋₊ (2⁶⁴−1)` (`LawfulPowf`) the
+      count computed by `toQuadsN` does satisfy that inequality when `a ≠ 0` and the count does not saturate;
+      `toQuads_error_real` – the resulting unconditional statement with `Real.sqrt`.
+    * `fitInside_sound(_hypot)`: for every fuel, if both end points are within `d ≥ 0` of the origin (the callers'
+      invariant) and `fit_inside d fuel = true`, then the whole curve is within `d` on [0,1].  Needs the one law
+      `LawfulHypot` (`hypot x y ≤ d ↔ x²+y² ≤ d²` for `d ≥ 0`; holds for ℝ with `hypot = √(x²+y²)`: `lawfulHypot_real`).
+      `fitInside_fuel_mono`: more fuel never turns `true` into `false` (any `Scalar`).
+    * `splitIntoN_spec`: ALL branches (1, 2, 3, 4, 6 and the generic one): `split_into_n n` is the list of the
+      sub-segments `[i/n,(i+1)/n]`, equality of control points; `splitIntoN_length`, `splitIntoN_eval`.
+    * result shapes (any `Scalar`): `tryApproxQuadratic_endpoints`, `approxSplineN_endpoints` (first = p0, last = p3,
+      `n + 2` control points), `approxSpline_endpoints`, `cubicsToQuadraticSplines_same_length` (one spline per cubic, in
+      order, all from the same `order ≤ 101`, all with `order + 2` control points, each with its cubic's end points).
+    * `quadSpline_implied_points`, `quadSpline_continuous` (any `Scalar`): `QuadSpline::to_quads` on ANY control point
+      list – count, control point, on-curve points as midpoints, consecutive quadratics join.
+    * accuracy (`LawfulHypot`, `a ≥ 0`): `errorCubic_is_difference` (the tested cubic is the difference curve),
+      `tryApproxQuadratic_sound`, `approxSplineN_sound` (the spline has `n` implied quadratics – the model of
+      `QuadSpline::to_quads` – and quadratic `idx` at `t` is within `a` of the cubic at `(idx+t)/n`),
+      `approxSpline_sound`, `cubicsToQuadraticSplines_sound`.
+    * the law classes are jointly satisfiable (ℝ with the mathematical operations: last `example` of Part C).
+
+    NOT PROVED / out of scope.
+    * Nothing about IEEE doubles (rounding, NaN, overflow).  `Rat`'s executable `hypot` (a 2⁻¹⁰⁰ approximation of the
+      square root) is NOT a `LawfulHypot`; the accuracy theorems speak about ℝ-like scalars.
+    * For a general lawful `K` the error bound of `to_quads` is conditional on the inequality for `n` (`powf`, `as usize`
+      are uninterpreted there); it is discharged only for ℝ under `LawfulPowf` and only when
+      `(|D|²/(432a²))^(1/6) ≤ 2⁶⁴−1` (otherwise `as usize` saturates and the bound is really lost) and `a ≠ 0`.
+    * No completeness: `fit_inside` may answer `false` for curves that are inside (finite fuel, conservative test),
+      `approx_spline` need not find the smallest `n`; no claim when the functions return `none`.
+    * `fitInside_sound` needs both end points inside: without that hypothesis the test is NOT sound (it never looks
+      at `p0`, `p3`); the callers establish it (`Point.ZERO`, resp. the `d1` check of the loop) – used that way here.
+    * nothing is said about G¹ continuity of the returned splines or about their distance to the cubic other than
+      at corresponding parameters (which bounds the Hausdorff/Fréchet distance from above). -/
+set_option linter.unusedSectionVars false
 namespace Kurbo
+
+/-! ## Part A – statements that use no arithmetic law (every `Scalar`, also `Float`) -/
+section structural
+variable {K : Type} [Scalar K]
+
+/-- `to_quads` yields exactly `toQuadsN` pieces, and at least one -/
+theorem toQuads_length (c : CubicBez K) (a : K) :
+    (c.to_quads a).length = toQuadsN c a ∧ 1 ≤ toQuadsN c a :=
+  ⟨by simp [CubicBez.to_quads], toQuadsN_pos c a⟩
+
+/-- piece `i` is `ToQuads::next` at index `i` -/
+theorem toQuads_getElem (c : CubicBez K) (a : K) (i : Nat) (hi : i < toQuadsN c a) :
+    (c.to_quads a)[i]? = some (toQuadsPiece c (toQuadsN c a) i) := toQuads_getElem? c a i hi
+
+/-- consecutive pieces share their parameter: `t1` of piece `i` and `t0` of piece `i+1` are the same term
+    (so also the same double) -/
+theorem toQuads_tiles_shared (c : CubicBez K) (a : K) (i : Nat) (p q : K × K × QuadBez K)
+    (hp : (c.to_quads a)[i]? = some p) (hq : (c.to_quads a)[i + 1]? = some q) : p.2.1 = q.1 := by
+  have hi1 : i + 1 < toQuadsN c a := by
+    have := (List.getElem?_eq_some_iff.mp hq).1
+    rwa [(toQuads_length c a).1] at this
+  rw [toQuads_getElem c a i (by omega)] at hp
+  rw [toQuads_getElem c a (i + 1) hi1] at hq
+  cases hp; cases hq; rfl
+
+/-- the end points of each quadratic are the cubic evaluated at the piece's own parameters (same terms) -/
+theorem toQuads_endpoints_on_cubic_terms (c : CubicBez K) (a : K) (i : Nat) (p : K × K × QuadBez K)
+    (hp : (c.to_quads a)[i]? = some p) : p.2.2.p0 = c.eval p.1 ∧ p.2.2.p2 = c.eval p.2.1 := by
+  have hi : i < toQuadsN c a := by
+    have := (List.getElem?_eq_some_iff.mp hp).1
+    rwa [(toQuads_length c a).1] at this
+  rw [toQuads_getElem c a i hi] at hp
+  cases hp; exact ⟨rfl, rfl⟩
+
+/-- more fuel never turns `true` into `false` -/
+theorem fitInside_fuel_mono (c : CubicBez K) (d : K) (fuel fuel' : Nat) (hle : fuel ≤ fuel')
+    (h : c.fit_inside d fuel = true) : c.fit_inside d fuel' = true := fit_inside_mono d c fuel fuel' hle h
+
+/-- `try_approx_quadratic` keeps the end points -/
+theorem tryApproxQuadratic_endpoints (c : CubicBez K) (a : K) (q : QuadBez K)
+    (h : c.try_approx_quadratic a = some q) : q.p0 = c.p0 ∧ q.p2 = c.p3 := try_approx_quadratic_ends c a q h
+
+/-- a spline returned by `approx_spline_n` starts and ends at the cubic's end points and has `n + 2` control points -/
+theorem approxSplineN_endpoints (c : CubicBez K) (n : Nat) (a : K) (pts : List (Point K))
+    (h : c.approx_spline_n n a = some pts) :
+    pts.head? = some c.p0 ∧ pts.getLast? = some c.p3 ∧ pts.length = n + 2 := approx_spline_n_shape c n a pts h
+
+/-- a spline returned by `approx_spline` starts and ends at the cubic's end points; it is the result of
+    `approx_spline_n` for some `1 ≤ n ≤ 100` and has `n + 2` control points -/
+theorem approxSpline_endpoints (c : CubicBez K) (a : K) (pts : List (Point K)) (h : c.approx_spline a = some pts) :
+    pts.head? = some c.p0 ∧ pts.getLast? = some c.p3 ∧
+    ∃ n, 1 ≤ n ∧ n ≤ 100 ∧ c.approx_spline_n n a = some pts ∧ pts.length = n + 2 := by
+  obtain ⟨n, h1, h2, hn⟩ := approx_spline_some c a pts h
+  obtain ⟨e0, e1, e2⟩ := approx_spline_n_shape c n a pts hn
+  exact ⟨e0, e1, n, h1, h2, hn, e2⟩
+
+/-- `cubics_to_quadratic_splines`: one spline per cubic, in order; all of them come from `approx_spline_n` with the
+    same `order ≤ 101`, so each starts/ends at its cubic's end points and all have `order + 2` control points -/
+theorem cubicsToQuadraticSplines_same_length (curves : List (CubicBez K)) (a : K) (splines : List (List (Point K)))
+    (h : cubicsToQuadraticSplines curves a = some splines) :
+    ∃ order, 1 ≤ order ∧ order ≤ 101 ∧ splines.length = curves.length ∧
+      (∀ sp ∈ splines, sp.length = order + 2) ∧
+      List.Forall₂ (fun c sp => c.approx_spline_n order a = some sp ∧ sp.head? = some c.p0 ∧ sp.getLast? = some c.p3)
+        curves splines := by
+  obtain ⟨order, h1, h2, hf⟩ := cubicsToQuadraticSplines_some curves a splines h
+  refine ⟨order, h1, h2, hf.length_eq.symm, ?_, ?_⟩
+  · exact forall₂_right_all (fun c sp hc => (approx_spline_n_shape c order a sp hc).2.2) hf
+  · exact hf.imp fun c sp hc => ⟨hc, (approx_spline_n_shape c order a sp hc).1, (approx_spline_n_shape c order a sp hc).2.1⟩
+
+/-- `QuadSpline::to_quads` on ANY control point list of length `n + 2`: `n` quadratics; quadratic `idx` has the control
+    point `pts[idx+1]`, starts at `pts[0]` (`idx = 0`) or at the midpoint of `pts[idx], pts[idx+1]`, and ends at the
+    midpoint of `pts[idx+1], pts[idx+2]` or (last one) at the last point – so consecutive quadratics join (same term) -/
+theorem quadSpline_implied_points (pts : List (Point K)) (n : Nat) (h : pts.length = n + 2) :
+    (quadSplineToQuads pts).length = n ∧
+    ∀ idx, idx < n → ∃ p0 p1 p2, pts[idx]? = some p0 ∧ pts[idx + 1]? = some p1 ∧ pts[idx + 2]? = some p2 ∧
+      (quadSplineToQuads pts)[idx]? = some ⟨if idx = 0 then p0 else p0.midpoint p1, p1,
+        if idx + 1 < n then p1.midpoint p2 else p2⟩ := quadSplineToQuads_general pts n h
+
+/-- consecutive implied quadratics share their end point (as terms) -/
+theorem quadSpline_continuous (pts : List (Point K)) (idx : Nat) (q q' : QuadBez K)
+    (hq : (quadSplineToQuads pts)[idx]? = some q) (hq' : (quadSplineToQuads pts)[idx + 1]? = some q') :
+    q.p2 = q'.p0 := by
+  have hlen : idx + 1 < (quadSplineToQuads pts).length := (List.getElem?_eq_some_iff.mp hq').1
+  have hl : (quadSplineToQuads pts).length ≤ pts.length - 2 := by
+    unfold quadSplineToQuads
+    exact (List.length_filterMap_le _ _).trans (by simp)
+  obtain ⟨n, hn⟩ : ∃ n, pts.length = n + 2 := ⟨pts.length - 2, by omega⟩
+  obtain ⟨hlen', hspec⟩ := quadSplineToQuads_general pts n hn
+  rw [hlen'] at hlen
+  obtain ⟨a0, a1, a2, _, ha1, ha2, hqa⟩ := hspec idx (by omega)
+  obtain ⟨b0, b1, b2, hb0, hb1, _, hqb⟩ := hspec (idx + 1) hlen
+  rw [hqa] at hq; rw [hqb] at hq'
+  cases hq; cases hq'
+  rw [ha1] at hb0; rw [ha2] at hb1
+  cases hb0; cases hb1
+  simp [hlen]
+
+end structural
+
+/-! ## Part B – arithmetic statements, arbitrary lawful scalar (ℚ, ℝ, …) -/
+variable {K : Type} [Field K] [LinearOrder K] [IsStrictOrderedRing K] [FloorRing K] [Scalar K] [LawfulScalar K]
+
+/-! ### `to_quads`: tiling -/
+
+/-- piece `i` of `n` covers the parameter range `[i/n, (i+1)/n]` -/
+theorem toQuads_tiles (c : CubicBez K) (a : K) (i : Nat) (p : K × K × QuadBez K)
+    (hp : (c.to_quads a)[i]? = some p) :
+    p.1 = (i : K) / (toQuadsN c a : K) ∧ p.2.1 = ((i : K) + 1) / (toQuadsN c a : K) := by
+  have hi : i < toQuadsN c a := by
+    have := (List.getElem?_eq_some_iff.mp hp).1
+    rwa [(toQuads_length c a).1] at this
+  rw [toQuads_getElem c a i hi] at hp
+  cases hp
+  exact ⟨toQuadsPiece_t0 c _ i, toQuadsPiece_t1 c _ i⟩
+
+/-- the first range starts at 0 and the last one ends at 1 (together with `toQuads_tiles_shared`: the ranges tile
+    `[0,1]` without gaps or overlaps) -/
+theorem toQuads_tiles_ends (c : CubicBez K) (a : K) :
+    (∀ p, (c.to_quads a)[0]? = some p → p.1 = 0) ∧
+    (∀ p, (c.to_quads a)[toQuadsN c a - 1]? = some p → p.2.1 = 1) := by
+  have hn := toQuadsN_pos c a
+  constructor
+  · intro p hp
+    rw [(toQuads_tiles c a 0 p hp).1]; simp
+  · intro p hp
+    rw [(toQuads_tiles c a _ p hp).2]
+    have hne : ((toQuadsN c a : Nat) : K) ≠ 0 := by
+      have : (0 : K) < (toQuadsN c a : K) := by exact_mod_cast hn
+      exact ne_of_gt this
+    rw [div_eq_one_iff_eq hne]
+    have : ((toQuadsN c a - 1 : Nat) : K) = (toQuadsN c a : K) - 1 := by
+      rw [Nat.cast_sub hn]; simp
+    rw [this]; ring
+
+/-- the end points of quadratic `i` lie on the cubic, at `i/n` and `(i+1)/n` -/
+theorem toQuads_endpoints_on_cubic (c : CubicBez K) (a : K) (i : Nat) (p : K × K × QuadBez K)
+    (hp : (c.to_quads a)[i]? = some p) :
+    p.2.2.p0 = c.eval ((i : K) / (toQuadsN c a : K)) ∧ p.2.2.p2 = c.eval (((i : K) + 1) / (toQuadsN c a : K)) := by
+  obtain ⟨h0, h2⟩ := toQuads_endpoints_on_cubic_terms c a i p hp
+  obtain ⟨e0, e1⟩ := toQuads_tiles c a i p hp
+  rw [h0, h2, e0, e1]; exact ⟨rfl, rfl⟩
+
+/-! ### `to_quads`: error -/
+
+/-- exact error of piece `(t0, t1, quad)` at corresponding parameters: with `D = p3 − 3p2 + 3p1 − p0` the third
+    difference of the cubic, `quad(s) − cubic(t0 + s·(t1−t0)) = −D·(t1−t0)³·s(s−½)(s−1)` -/
+theorem toQuads_error_identity (c : CubicBez K) (a : K) (i : Nat) (p : K × K × QuadBez K)
+    (hp : (c.to_quads a)[i]? = some p) (s : K) :
+    (p.2.2.eval s).x - (c.eval (p.1 + s * (p.2.1 - p.1))).x
+      = -(c.p3.x - 3 * c.p2.x + 3 * c.p1.x - c.p0.x) * (p.2.1 - p.1) ^ 3 * (s * (s - 1 / 2) * (s - 1)) ∧
+    (p.2.2.eval s).y - (c.eval (p.1 + s * (p.2.1 - p.1))).y
+      = -(c.p3.y - 3 * c.p2.y + 3 * c.p1.y - c.p0.y) * (p.2.1 - p.1) ^ 3 * (s * (s - 1 / 2) * (s - 1)) := by
+  have hi : i < toQuadsN c a := by
+    have := (List.getElem?_eq_some_iff.mp hp).1
+    rwa [(toQuads_length c a).1] at this
+  rw [toQuads_getElem c a i hi] at hp
+  cases hp
+  exact toQuadsPiece_error c _ i s
+
+/-- `|s(s−½)(s−1)| ≤ 1/(12√3)` on `[0,1]`, squared -/
+theorem cubic_s_bound_sq (s : K) (h0 : 0 ≤ s) (h1 : s ≤ 1) : (s * (s - 1 / 2) * (s - 1)) ^ 2 ≤ 1 / 432 :=
+  cubic_s_bound s h0 h1
+
+/-- … and `1/432` is the maximum (attained where `s(1−s) = 1/6`, i.e. `s = ½ ± √3/6`): the constant `432` of
+    `to_quads` cannot be lowered -/
+theorem cubic_s_bound_sq_tight (s : K) (h : s * (1 - s) = 1 / 6) : (s * (s - 1 / 2) * (s - 1)) ^ 2 = 1 / 432 :=
+  cubic_s_bound_tight_sq s h
+
+/-- **error bound of `to_quads`**: whenever the chosen piece count `n` satisfies the inequality the formula
+    `n = ⌈(|D|²/(432 a²))^(1/6)⌉` is meant to guarantee, every quadratic stays within `a` of the cubic at corresponding
+    parameters (squared Euclidean distance ≤ a²) -/
+theorem toQuads_error_bound (c : CubicBez K) (a : K)
+    (hn : (c.p3.x - 3 * c.p2.x + 3 * c.p1.x - c.p0.x) ^ 2 + (c.p3.y - 3 * c.p2.y + 3 * c.p1.y - c.p0.y) ^ 2
+        ≤ (toQuadsN c a : K) ^ 6 * (432 * a ^ 2))
+    (i : Nat) (p : K × K × QuadBez K) (hp : (c.to_quads a)[i]? = some p) (s : K) (hs0 : 0 ≤ s) (hs1 : s ≤ 1) :
+    ((p.2.2.eval s).x - (c.eval (p.1 + s * (p.2.1 - p.1))).x) ^ 2
+      + ((p.2.2.eval s).y - (c.eval (p.1 + s * (p.2.1 - p.1))).y) ^ 2 ≤ a ^ 2 := by
+  have hi : i < toQuadsN c a := by
+    have := (List.getElem?_eq_some_iff.mp hp).1
+    rwa [(toQuads_length c a).1] at this
+  rw [toQuads_getElem c a i hi] at hp
+  cases hp
+  exact toQuadsPiece_error_bound c _ i (toQuadsN_pos c a) a hn s hs0 hs1
+
+/-- the same with the parameter of the cubic written out: quadratic `i` at `s` against the cubic at `(i+s)/n` -/
+theorem toQuads_error_bound' (c : CubicBez K) (a : K)
+    (hn : (c.p3.x - 3 * c.p2.x + 3 * c.p1.x - c.p0.x) ^ 2 + (c.p3.y - 3 * c.p2.y + 3 * c.p1.y - c.p0.y) ^ 2
+        ≤ (toQuadsN c a : K) ^ 6 * (432 * a ^ 2))
+    (i : Nat) (p : K × K × QuadBez K) (hp : (c.to_quads a)[i]? = some p) (s : K) (hs0 : 0 ≤ s) (hs1 : s ≤ 1) :
+    ((p.2.2.eval s).x - (c.eval (((i : K) + s) / (toQuadsN c a : K))).x) ^ 2
+      + ((p.2.2.eval s).y - (c.eval (((i : K) + s) / (toQuadsN c a : K))).y) ^ 2 ≤ a ^ 2 := by
+  have h := toQuads_error_bound c a hn i p hp s hs0 hs1
+  obtain ⟨e0, e1⟩ := toQuads_tiles c a i p hp
+  have e : p.1 + s * (p.2.1 - p.1) = ((i : K) + s) / (toQuadsN c a : K) := by rw [e0, e1]; ring
+  rwa [e] at h
+
+/-! ### `fit_inside` -/
+
+/-- **soundness of `fit_inside`** (squared form, any lawful scalar whose `hypot` compares like `√(x²+y²)`): under
+    the callers' invariant that both end points are within `d` of the origin, a `true` answer – for any fuel – means
+    the whole curve is within `d` of the origin -/
+theorem fitInside_sound [LawfulHypot K] (c : CubicBez K) (d : K) (hd : 0 ≤ d) (fuel : Nat)
+    (h0 : c.p0.x ^ 2 + c.p0.y ^ 2 ≤ d ^ 2) (h3 : c.p3.x ^ 2 + c.p3.y ^ 2 ≤ d ^ 2)
+    (h : c.fit_inside d fuel = true) (t : K) (ht0 : 0 ≤ t) (ht1 : t ≤ 1) :
+    (c.eval t).x ^ 2 + (c.eval t).y ^ 2 ≤ d ^ 2 :=
+  fit_inside_sound d hd fuel c h0 h3 h t ht0 ht1
+
+/-- the same statement in terms of the model's own `Vec2.hypot` -/
+theorem fitInside_sound_hypot [LawfulHypot K] (c : CubicBez K) (d : K) (hd : 0 ≤ d) (fuel : Nat)
+    (h0 : c.p0.to_vec2.hypot ≤ d) (h3 : c.p3.to_vec2.hypot ≤ d) (h : c.fit_inside d fuel = true)
+    (t : K) (ht0 : 0 ≤ t) (ht1 : t ≤ 1) : (c.eval t).to_vec2.hypot ≤ d :=
+  fit_inside_sound_hypot d hd fuel c h0 h3 h t ht0 ht1
+
+/-! ### `split_into_n` -/
+
+/-- all five precomputed cases (1, 2, 3, 4, 6) and the generic branch: the `i`-th cubic is the sub-segment
+    `[i/n, (i+1)/n]` (equality of control points) -/
+theorem splitIntoN_spec (c : CubicBez K) (n : Nat) :
+    c.split_into_n n = (List.range n).map fun i : Nat => c.subsegment ⟨(i : K) / n, ((i : K) + 1) / n⟩ :=
+  split_into_n_eq c n
+
+theorem splitIntoN_length (c : CubicBez K) (n : Nat) : (c.split_into_n n).length = n := by
+  rw [split_into_n_eq]; simp
+
+/-- evaluation form: piece `i` at `s` is the cubic at `(i+s)/n` -/
+theorem splitIntoN_eval (c : CubicBez K) (n i : Nat) (hi : i < n) :
+    ∃ piece, (c.split_into_n n)[i]? = some piece ∧ ∀ s : K, piece.eval s = c.eval (((i : K) + s) / n) := by
+  refine ⟨c.subsegment ⟨(i : K) / n, ((i : K) + 1) / n⟩, ?_, ?_⟩
+  · rw [split_into_n_eq]; simp [hi]
+  · intro s
+    rw [cubic_subsegment_eval]; congr 1; ring
+
+/-! ### `try_approx_quadratic`, `approx_spline_n`, `approx_spline`, `cubics_to_quadratic_splines`: accuracy -/
+
+/-- **difference-curve identity**: the cubic that `try_approx_quadratic` and the loop of `approx_spline_n` hand to
+    `fit_inside` – control points `(e0, lerp(q0,q1,⅔) − cur.p1, lerp(q2,q1,⅔) − cur.p2, e3)` with
+    `e0 = q0 − cur.p0`, `e3 = q2 − cur.p3` – evaluates to `quad(q0,q1,q2)(t) − cur(t)` for every `t` -/
+theorem errorCubic_is_difference (q0 q1 q2 e0 e3 : Point K) (cur : CubicBez K)
+    (h0x : e0.x = q0.x - cur.p0.x) (h0y : e0.y = q0.y - cur.p0.y)
+    (h3x : e3.x = q2.x - cur.p3.x) (h3y : e3.y = q2.y - cur.p3.y) (t : K) :
+    ((CubicBez.new e0 (q0.lerp q1 (2 / 3) - cur.p1.to_vec2) (q2.lerp q1 (2 / 3) - cur.p2.to_vec2) e3).eval t).x
+        = ((QuadBez.mk q0 q1 q2).eval t).x - (cur.eval t).x ∧
+    ((CubicBez.new e0 (q0.lerp q1 (2 / 3) - cur.p1.to_vec2) (q2.lerp q1 (2 / 3) - cur.p2.to_vec2) e3).eval t).y
+        = ((QuadBez.mk q0 q1 q2).eval t).y - (cur.eval t).y :=
+  diff_curve q0 q1 q2 e0 e3 cur (2 / 3) rfl h0x h0y h3x h3y t
+
+/-- a quadratic returned by `try_approx_quadratic` is within `a` of the cubic at equal parameters -/
+theorem tryApproxQuadratic_sound [LawfulHypot K] (c : CubicBez K) (a : K) (ha : 0 ≤ a) (q : QuadBez K)
+    (h : c.try_approx_quadratic a = some q) (t : K) (ht0 : 0 ≤ t) (ht1 : t ≤ 1) :
+    ((q.eval t).x - (c.eval t).x) ^ 2 + ((q.eval t).y - (c.eval t).y) ^ 2 ≤ a ^ 2 :=
+  try_approx_quadratic_sound c a ha q h t ht0 ht1
+
+/-- **soundness of `approx_spline_n`**: the returned spline has `n` implied quadratics (`QuadSpline::to_quads`), and
+    quadratic `idx` at `t` is within `a` of the cubic at `(idx + t)/n` -/
+theorem approxSplineN_sound [LawfulHypot K] (c : CubicBez K) (n : Nat) (a : K) (ha : 0 ≤ a) (pts : List (Point K))
+    (h : c.approx_spline_n n a = some pts) :
+    (quadSplineToQuads pts).length = n ∧
+    ∀ (idx : Nat) (q : QuadBez K), (quadSplineToQuads pts)[idx]? = some q → ∀ t : K, 0 ≤ t → t ≤ 1 →
+      ((q.eval t).x - (c.eval (((idx : K) + t) / n)).x) ^ 2
+        + ((q.eval t).y - (c.eval (((idx : K) + t) / n)).y) ^ 2 ≤ a ^ 2 :=
+  approx_spline_n_sound c n a ha pts h
+
+/-- **soundness of `approx_spline`** -/
+theorem approxSpline_sound [LawfulHypot K] (c : CubicBez K) (a : K) (ha : 0 ≤ a) (pts : List (Point K))
+    (h : c.approx_spline a = some pts) :
+    pts.head? = some c.p0 ∧ pts.getLast? = some c.p3 ∧
+    ∀ (idx : Nat) (q : QuadBez K), (quadSplineToQuads pts)[idx]? = some q → ∀ t : K, 0 ≤ t → t ≤ 1 →
+      ((q.eval t).x - (c.eval (((idx : K) + t) / ((quadSplineToQuads pts).length : K))).x) ^ 2
+        + ((q.eval t).y - (c.eval (((idx : K) + t) / ((quadSplineToQuads pts).length : K))).y) ^ 2 ≤ a ^ 2 := by
+  obtain ⟨n, _, _, hn⟩ := approx_spline_some c a pts h
+  obtain ⟨e0, e1, _⟩ := approx_spline_n_shape c n a pts hn
+  obtain ⟨hl, hs⟩ := approx_spline_n_sound c n a ha pts hn
+  rw [hl]
+  exact ⟨e0, e1, hs⟩
+
+/-- **soundness of `cubics_to_quadratic_splines`**: every returned spline starts/ends at its cubic's end points, has
+    `order + 2` control points (the same `order` for all), and each of its `order` implied quadratics is within `a`
+    of the corresponding piece of its cubic -/
+theorem cubicsToQuadraticSplines_sound [LawfulHypot K] (curves : List (CubicBez K)) (a : K) (ha : 0 ≤ a)
+    (splines : List (List (Point K))) (h : cubicsToQuadraticSplines curves a = some splines) :
+    ∃ order, 1 ≤ order ∧ order ≤ 101 ∧
+      List.Forall₂ (fun (c : CubicBez K) (pts : List (Point K)) =>
+        pts.head? = some c.p0 ∧ pts.getLast? = some c.p3 ∧ pts.length = order + 2 ∧
+        (quadSplineToQuads pts).length = order ∧
+        ∀ (idx : Nat) (q : QuadBez K), (quadSplineToQuads pts)[idx]? = some q → ∀ t : K, 0 ≤ t → t ≤ 1 →
+          ((q.eval t).x - (c.eval (((idx : K) + t) / order)).x) ^ 2
+            + ((q.eval t).y - (c.eval (((idx : K) + t) / order)).y) ^ 2 ≤ a ^ 2) curves splines := by
+  obtain ⟨order, h1, h2, hf⟩ := cubicsToQuadraticSplines_some curves a splines h
+  refine ⟨order, h1, h2, hf.imp ?_⟩
+  intro c pts hc
+  obtain ⟨e0, e1, e2⟩ := approx_spline_n_shape c order a pts hc
+  obtain ⟨hl, hs⟩ := approx_spline_n_sound c order a ha pts hc
+  exact ⟨e0, e1, e2, hl, hs⟩
+
+end Kurbo
+
+/-! ## Part C – ℝ: the piece count of `to_quads`, distances with square roots; the law classes are satisfiable -/
+namespace Kurbo
+section real
+variable [Scalar ℝ] [LawfulScalar ℝ]
+
+/-- with `powf x y = x ^ y` and `x as usize = min ⌊x⌋₊ (2⁶⁴−1)` the piece count of `to_quads` satisfies the
+    hypothesis of `toQuads_error_bound` (for `a ≠ 0` and as long as the count does not saturate) -/
+theorem toQuadsN_sufficient [LawfulPowf] (c : CubicBez ℝ) (a : ℝ) (ha : a ≠ 0)
+    (hsat : (((c.p3.x - 3 * c.p2.x + 3 * c.p1.x - c.p0.x) ^ 2
+        + (c.p3.y - 3 * c.p2.y + 3 * c.p1.y - c.p0.y) ^ 2) / (432 * a ^ 2)) ^ ((1 : ℝ) / 6) ≤ 2 ^ 64 - 1) :
+    (c.p3.x - 3 * c.p2.x + 3 * c.p1.x - c.p0.x) ^ 2 + (c.p3.y - 3 * c.p2.y + 3 * c.p1.y - c.p0.y) ^ 2
+      ≤ (toQuadsN c a : ℝ) ^ 6 * (432 * a ^ 2) := toQuadsN_meets c a ha hsat
+
+/-- **`to_quads` is within the accuracy** (ℝ, Euclidean distance): quadratic `i` at `s` against the cubic at `(i+s)/n` -/
+theorem toQuads_error_real [LawfulPowf] (c : CubicBez ℝ) (a : ℝ) (ha : 0 < a)
+    (hsat : (((c.p3.x - 3 * c.p2.x + 3 * c.p1.x - c.p0.x) ^ 2
+        + (c.p3.y - 3 * c.p2.y + 3 * c.p1.y - c.p0.y) ^ 2) / (432 * a ^ 2)) ^ ((1 : ℝ) / 6) ≤ 2 ^ 64 - 1)
+    (i : Nat) (p : ℝ × ℝ × QuadBez ℝ) (hp : (c.to_quads a)[i]? = some p) (s : ℝ) (hs0 : 0 ≤ s) (hs1 : s ≤ 1) :
+    Real.sqrt (((p.2.2.eval s).x - (c.eval (((i : ℝ) + s) / (toQuadsN c a : ℝ))).x) ^ 2
+      + ((p.2.2.eval s).y - (c.eval (((i : ℝ) + s) / (toQuadsN c a : ℝ))).y) ^ 2) ≤ a := by
+  rw [Real.sqrt_le_left ha.le]
+  exact toQuads_error_bound' c a (toQuadsN_meets c a (ne_of_gt ha) hsat) i p hp s hs0 hs1
+
+/-- `LawfulHypot ℝ` is what `hypot x y = √(x² + y²)` gives -/
+theorem lawfulHypot_real (h : ∀ x y : ℝ, Scalar.hypot x y = Real.sqrt (x ^ 2 + y ^ 2)) : LawfulHypot ℝ :=
+  lawfulHypot_of_sqrt h
+
+end real
+
+/-- the law classes used above are satisfiable together: ℝ with the mathematical operations -/
+example : ∃ inst : Scalar ℝ, @LawfulScalar ℝ _ _ _ _ inst ∧ @LawfulHypot ℝ _ _ inst ∧ @LawfulPowf inst :=
+  ⟨realScalar17, realScalar17_lawful, realScalar_hypot, realScalar_powf⟩
+
+end Kurbo
+
+/-! ## Examples: the hypotheses are satisfiable, the functions return results on non-trivial inputs (`Rat`) -/
+namespace Kurbo
+namespace C17Examples
+
+def cE : CubicBez Rat := ⟨⟨0, 0⟩, ⟨1, 2⟩, ⟨3, 2⟩, ⟨4, 0⟩⟩
+/-- an exactly representable quadratic (degree-raised) -/
+def cQ : CubicBez Rat := ⟨⟨0, 0⟩, ⟨2 / 3, 4 / 3⟩, ⟨4 / 3, 4 / 3⟩, ⟨2, 0⟩⟩
+def cF : CubicBez Rat := ⟨⟨0, 0⟩, ⟨0, 6 / 5⟩, ⟨0, 6 / 5⟩, ⟨0, 0⟩⟩
+
+-- `to_quads`: four pieces, their ranges; the hypothesis of `toQuads_error_bound` holds for this input
+example : toQuadsN cE (1 / 20) = 4 := by decide +kernel
+example : (cE.to_quads (1 / 20)).map (fun p => (p.1, p.2.1)) = [(0, 1 / 4), (1 / 4, 1 / 2), (1 / 2, 3 / 4), (3 / 4, 1)] := by
+  decide +kernel
+example : (cE.p3.x - 3 * cE.p2.x + 3 * cE.p1.x - cE.p0.x) ^ 2 + (cE.p3.y - 3 * cE.p2.y + 3 * cE.p1.y - cE.p0.y) ^ 2
+    ≤ ((toQuadsN cE (1 / 20) : Nat) : Rat) ^ 6 * (432 * (1 / 20) ^ 2) := by decide +kernel
+-- … and the conclusion, at s = 1/3 of piece 2 (squared distance against a² = 1/400)
+example : (cE.to_quads (1 / 20))[2]? = some (toQuadsPiece cE 4 2) ∧
+    (((toQuadsPiece cE 4 2).2.2.eval (1 / 3)).x - (cE.eval ((2 + 1 / 3) / 4)).x) ^ 2
+      + (((toQuadsPiece cE 4 2).2.2.eval (1 / 3)).y - (cE.eval ((2 + 1 / 3) / 4)).y) ^ 2 = 1 / 746496 := by
+  decide +kernel
+-- the bound 1/432 is attained over ℝ at s = 1/2 − √3/6 (`cubic_s_bound_sq_tight`)
+example : ((1 : ℝ) / 2 - Real.sqrt 3 / 6) * (1 - (1 / 2 - Real.sqrt 3 / 6)) = 1 / 6 := by
+  have h : Real.sqrt 3 * Real.sqrt 3 = 3 := Real.mul_self_sqrt (by norm_num)
+  ring_nf; rw [show Real.sqrt 3 ^ 2 = 3 by rw [pow_two]; exact h]; norm_num
+-- `fit_inside`: a curve that needs one subdivision (`true` with fuel 2, not with fuel 1)
+example : cF.fit_inside 1 1 = false ∧ cF.fit_inside 1 2 = true := by decide +kernel
+-- the hypotheses of `fitInside_sound` are satisfiable over ℝ (end points inside, answer `true`)
+example : letI := realScalar17
+    (⟨⟨0, 0⟩, ⟨1 / 2, 0⟩, ⟨0, 1 / 2⟩, ⟨0, 0⟩⟩ : CubicBez ℝ).fit_inside 1 1 = true := by
+  let _ := realScalar17
+  have := realScalar17_lawful
+  have := realScalar_hypot
+  rw [CubicBez.fit_inside, if_pos]
+  simp only [scalar_norm, Bool.and_eq_true, decide_eq_true_eq]
+  rw [vec2_hypot_le_iff _ _ zero_le_one, vec2_hypot_le_iff _ _ zero_le_one]
+  simp only [Point.to_vec2]
+  norm_num
+-- without the end-point hypothesis `fit_inside` is not a containment test: it never looks at `p0`, `p3`
+example : (⟨⟨100, 0⟩, ⟨0, 0⟩, ⟨0, 0⟩, ⟨0, 0⟩⟩ : CubicBez Rat).fit_inside 1 1 = true := by decide +kernel
+-- `split_into_n`: a precomputed case and the generic branch
+example : (cE.split_into_n 3).length = 3 ∧ (cE.split_into_n 5).length = 5 := by decide +kernel
+example : (cE.split_into_n 5)[2]? = some (cE.subsegment ⟨2 / 5, 3 / 5⟩) := by decide +kernel
+-- `try_approx_quadratic`, `approx_spline_n`, `approx_spline`, `cubics_to_quadratic_splines` return results
+example : cQ.try_approx_quadratic (1 / 100) = some ⟨⟨0, 0⟩, ⟨1, 2⟩, ⟨2, 0⟩⟩ := by decide +kernel
+example : cE.try_approx_quadratic (1 / 20) = none := by decide +kernel
+example : cE.approx_spline_n 2 (1 / 20) = some [⟨0, 0⟩, ⟨3 / 4, 3 / 2⟩, ⟨13 / 4, 3 / 2⟩, ⟨4, 0⟩] := by decide +kernel
+example : (cE.approx_spline (1 / 200)).map List.length = some 7 := by decide +kernel
+example : ((cE.approx_spline (1 / 200)).map quadSplineToQuads).map List.length = some 5 := by decide +kernel
+example : quadSplineToQuads [(⟨0, 0⟩ : Point Rat), ⟨1, 2⟩, ⟨3, 2⟩, ⟨4, 0⟩]
+    = [⟨⟨0, 0⟩, ⟨1, 2⟩, ⟨2, 2⟩⟩, ⟨⟨2, 2⟩, ⟨3, 2⟩, ⟨4, 0⟩⟩] := by decide +kernel
+example : (cubicsToQuadraticSplines [cE, cQ] (1 / 20)).map (List.map List.length) = some [4, 4] := by decide +kernel
+
+end C17Examples
 end Kurbo
